@@ -297,3 +297,130 @@ pub fn run(out: &mut Out, seed: u64, thorough: bool) {
         id += idstep;
     }
 }
+
+// -------------------------------------------------------------------- custcrc
+/// A user-supplied CRC calculator: the standard CRC-32, complemented when `inv` is set.  The crate must use the
+/// calculator it was given - on both sides, and the new one after `set_crc_calculator`.
+#[derive(Clone, PartialEq, Debug)]
+pub struct FlexCrc {
+    pub inv: bool,
+}
+impl dvb_gse_rust::crc::CrcCalculator for FlexCrc {
+    fn calculate_crc32(&self, pdu: &[u8], protocol_type: u16, total_length: u16, label: &[u8]) -> u32 {
+        let c = DefaultCrc {}.calculate_crc32(pdu, protocol_type, total_length, label);
+        if self.inv {
+            !c
+        } else {
+            c
+        }
+    }
+}
+
+fn custcrc_send(
+    out: &mut Out,
+    rng: &mut Rng,
+    enc: &mut Encapsulator<FlexCrc>,
+    rx: &mut Rx<FlexCrc>,
+    plen: usize,
+    label: Label,
+    fragid: u8,
+) {
+    let pdu = Pdu::random(out, plen, rng);
+    let feed = |out: &mut Out, rx: &mut Rx<FlexCrc>, wire: &[u8]| {
+        let o = rx.ev_decap(out, wire, vec![]);
+        if let Some(b) = o.returned {
+            rx.ev_provision_buf(out, b);
+        }
+    };
+    let b0 = rng.range(14, 14 + plen / 2);
+    let t = ev_encap(out, enc, &pdu, fragid, label, 0x0800, b0, None, None);
+    let mut ctx = match &t.res {
+        Some(Ok(EncapStatus::CompletedPkt(_))) => {
+            feed(out, rx, &t.wire);
+            None
+        }
+        Some(Ok(EncapStatus::FragmentedPkt(_, c))) => {
+            feed(out, rx, &t.wire);
+            Some(*c)
+        }
+        _ => None,
+    };
+    let mut guard = 0;
+    while let Some(cx) = ctx {
+        guard += 1;
+        if guard > 60 {
+            break;
+        }
+        let b = rng.range(8, 8 + plen);
+        let t = ev_encap_frag(out, enc, &pdu, &cx, b);
+        match &t.res {
+            Some(Ok(EncapStatus::CompletedPkt(_))) => {
+                feed(out, rx, &t.wire);
+                ctx = None;
+            }
+            Some(Ok(EncapStatus::FragmentedPkt(_, c2))) => {
+                feed(out, rx, &t.wire);
+                ctx = Some(*c2);
+            }
+            _ => {}
+        }
+    }
+}
+
+pub fn custcrc(out: &mut Out, seed: u64, thorough: bool) {
+    let mut rng = Rng::new(seed ^ 0xC0C0);
+    let reps = if thorough { 40 } else { 8 };
+    // (sender complemented?, receiver complemented?): equal -> lock-step, everything is delivered;
+    // different -> the receiver must refuse every fragmented PDU (complete packets carry no CRC)
+    for (txinv, rxinv) in [(true, true), (false, false), (true, false), (false, true)] {
+        for rep in 0..reps {
+            let mgr = TableMgr { known: vec![] };
+            let storage = 300;
+            out.begin(
+                "custcrc",
+                Obj::new()
+                    .str("what", if txinv == rxinv { "same_calculator" } else { "different_calculators" })
+                    .boolean("lock", txinv == rxinv)
+                    .boolean("txinv", txinv)
+                    .boolean("rxinv", rxinv)
+                    .raw("rx", &jrxcfg(2, storage, &mgr).end()),
+            );
+            let mut enc = Encapsulator::new(FlexCrc { inv: txinv });
+            let mut rx: Rx<FlexCrc> = Rx::new(2, storage, FlexCrc { inv: rxinv }, mgr);
+            rx.ev_provision(out, storage);
+            rx.ev_provision(out, storage + 1);
+            for k in 0..3 {
+                let label = pick_label(&mut rng);
+                let plen = rng.range(20, 250);
+                let id = (rep * 3 + k) as u8;
+                rx.note_id(id);
+                custcrc_send(out, &mut rng, &mut enc, &mut rx, plen, label, id);
+            }
+            rx.ev_drain(out);
+        }
+    }
+    // the sender's calculator is replaced between two PDUs: the receiver holds the new one, so the PDU sent
+    // before the switch is refused and the one sent after it is delivered
+    for rep in 0..reps {
+        let mgr = TableMgr { known: vec![] };
+        let storage = 300;
+        let to = rep % 2 == 0;
+        out.begin(
+            "custcrc",
+            Obj::new().str("what", "set_crc_calculator").boolean("lock", false).boolean("txinv", !to).boolean("rxinv", to).raw("rx", &jrxcfg(2, storage, &mgr).end()),
+        );
+        let mut enc = Encapsulator::new(FlexCrc { inv: !to });
+        let mut rx: Rx<FlexCrc> = Rx::new(2, storage, FlexCrc { inv: to }, mgr);
+        rx.ev_provision(out, storage);
+        rx.ev_provision(out, storage + 1);
+        rx.note_id(1);
+        rx.note_id(2);
+        let n1 = rng.range(30, 200);
+        custcrc_send(out, &mut rng, &mut enc, &mut rx, n1, LA6, 1);
+        enc.set_crc_calculator(FlexCrc { inv: to });
+        out.emit(&Obj::new().str("ev", "cfg").str("op", "set_crc").num("n", 0).boolean("inv", to).end());
+        let n2 = rng.range(30, 200);
+        custcrc_send(out, &mut rng, &mut enc, &mut rx, n2, LA3, 2);
+        rx.ev_drain(out);
+    }
+}
